@@ -360,12 +360,14 @@ impl Property for C19 {
         cx.nontrivial_if(s.eqs.len() >= 2 && shares);
         cx.label_if(seen.iter().any(|x| !*x), "unused_var");
         cx.label_if(s.eqs.len() > s.num_vars, "overdetermined");
-        match *mode {
-            0xF0 | 0xF1 | 1 => run_w::<u64>(cx, &s),
-            0 => run_w::<u8>(cx, &s),
-            2 => run_w::<usize>(cx, &s),
-            3 => run_w::<u128>(cx, &s),
-            _ => run_w::<u16>(cx, &s),
+        // the word type follows the width the constants were generated for (any mode byte, as a fuzzer may send)
+        match (*mode, s.wbits) {
+            (0xF0 | 0xF1, _) => run_w::<u64>(cx, &s),
+            (_, 8) => run_w::<u8>(cx, &s),
+            (_, 16) => run_w::<u16>(cx, &s),
+            (_, 128) => run_w::<u128>(cx, &s),
+            (m, _) if m % 5 == 2 => run_w::<usize>(cx, &s),
+            _ => run_w::<u64>(cx, &s),
         }
     }
 }
